@@ -5484,6 +5484,20 @@ func checkReleaseDeferred(p *Program, r *Report, rule string) {
 					if op := isMutexOp(x.Common()); op == "Unlock" || op == "RUnlock" {
 						deferred[op] = true
 					}
+					// defer func() { lock.Unlock() }()
+					if mc, ok := x.Call.Value.(*ssa.MakeClosure); ok {
+						if cf, ok := mc.Fn.(*ssa.Function); ok {
+							for _, cb := range cf.Blocks {
+								for _, cin := range cb.Instrs {
+									if c, ok := cin.(*ssa.Call); ok {
+										if op := isMutexOp(c.Common()); op == "Unlock" || op == "RUnlock" {
+											deferred[op] = true
+										}
+									}
+								}
+							}
+						}
+					}
 				}
 			}
 		}
@@ -5821,4 +5835,102 @@ func checkSlotCacheNotPermuted(p *Program, r *Report, rule string, entries []str
 	if n == 0 {
 		r.Discharge(rule, "closure/no-slot-cache", "-", "no slice in the closure is filled slot by slot from another list", false)
 	}
+}
+
+// ---------------------------------------------------------------------------
+// R05h NOT-THE-LAST-ITERATION-ONLY. A predicate over a list ("are all of these
+// hashes cached", "is every position present") that is computed in a loop
+// must not hand out what the last iteration found: a flag that every
+// iteration overwrites, returned after the loop, forgets the earlier
+// elements. The block application of the partial map forest relies on such a
+// predicate to refuse a block it cannot apply; with the last element cached
+// and an earlier one not, it would go on and hash missing siblings as empty.
+// Rule: in a function that returns a bool, a returned value that is a φ at
+// the header of a loop must not receive, around the loop, a value computed in
+// that iteration which does not depend on the φ itself (found = lookup(x)
+// instead of found = found && lookup(x)), unless the iteration leaves the
+// loop on that value.
+
+func checkNotLastIterationOnly(p *Program, r *Report, rule string, entries []string, floor int) {
+	var es []*ssa.Function
+	for _, e := range entries {
+		if f := p.Func(e); f != nil {
+			es = append(es, f)
+		} else {
+			r.MissingAnchor(rule, e, e+" not found")
+		}
+	}
+	reach := p.StaticReach(es...)
+	n := 0
+	for _, fn := range sortedFuncs(p, reach) {
+		if fn.Blocks == nil || !p.owns(fn) {
+			continue
+		}
+		res := fn.Signature.Results()
+		bi := -1
+		for i := 0; i < res.Len(); i++ {
+			if types.Identical(res.At(i).Type(), types.Typ[types.Bool]) {
+				bi = i
+			}
+		}
+		if bi < 0 {
+			continue
+		}
+		hasLoop := false
+		for _, b := range fn.Blocks {
+			if len(latches(b)) > 0 {
+				hasLoop = true
+			}
+		}
+		if !hasLoop {
+			continue
+		}
+		n++
+		key := p.FuncName(fn) + "/list-predicate"
+		var bad ssa.Instruction
+		seen := map[ssa.Value]bool{}
+		var visit func(v ssa.Value, ret *ssa.Return)
+		visit = func(v ssa.Value, ret *ssa.Return) {
+			if v == nil || seen[v] || bad != nil {
+				return
+			}
+			seen[v] = true
+			ph, ok := v.(*ssa.Phi)
+			if !ok {
+				return
+			}
+			h := ph.Block()
+			isHeader := len(latches(h)) > 0
+			for i, e := range ph.Edges {
+				if isHeader && i < len(h.Preds) && h.Dominates(h.Preds[i]) {
+					// value carried around the loop: must depend on the phi itself, or be the phi / a constant
+					if _, isConst := e.(*ssa.Const); isConst || e == ssa.Value(ph) {
+						continue
+					}
+					if !dependsOn(e, func(x ssa.Value) bool { return x == ssa.Value(ph) }) {
+						if in, ok := e.(ssa.Instruction); ok {
+							bad = in
+						} else {
+							bad = ret
+						}
+						return
+					}
+					continue
+				}
+				visit(e, ret)
+			}
+		}
+		for _, ret := range returnsOf(fn) {
+			ops := retOperands(ret)
+			if bi < len(ops) && innermostLoopHeader(ret.Block()) == nil {
+				visit(ops[bi], ret)
+			}
+		}
+		if bad != nil {
+			r.Violate(rule, key, posOf(p, bad), "the boolean this function returns after its loop is overwritten by every iteration with what that iteration found (it does not depend on its own previous value and the iteration does not leave the loop on it): the answer is about the last element only - a predicate over the whole list forgets the earlier elements", "in "+p.FuncName(fn))
+		} else {
+			r.Discharge(rule, key, p.Pos(fn.Pos()), "no returned boolean is a loop-carried flag overwritten by each iteration", true)
+		}
+	}
+	r.Floor(rule, "boolean functions with a loop in the closure", n, floor)
 }
